@@ -4,7 +4,7 @@ CONSTANTS
   Families <- FamLoc
   ModeCounts = {0, 2}
   Refines = {FALSE, TRUE}
-  Widths = {"none", "given"}
+  Widths = {"none", "given", "zero"}
   Rules = {"0.5", "otsu"}
   MinRadii = {"zero", "one"}
   RefineArgs = {"none", "autoadjust"}
